@@ -5,6 +5,7 @@ import (
 	"fmt"
 	"reflect"
 	"runtime"
+	"sync/atomic"
 	"time"
 
 	"github.com/whoisnian/glb/tasklane"
@@ -40,12 +41,26 @@ func run(spec Scenario) outcome {
 	sc := &scn{spec: spec, gate: make(chan struct{})}
 	var out outcome
 	base := context.WithValue(context.Background(), scnKey{}, sc)
-	if spec.Cancel.Kind == "deadline" {
+	switch {
+	case spec.CtxKind == "own":
+		oc := newOwnCtx(base)
+		sc.ctx, sc.cancel = oc, func() { oc.finish(context.Canceled) }
+		if spec.Cancel.Kind == "deadline" {
+			d := time.Duration(spec.Cancel.DeadlineMs) * time.Millisecond
+			oc.dl, oc.hasDl = time.Now().Add(d), true
+			tm := time.AfterFunc(d, func() { oc.finish(context.DeadlineExceeded) })
+			defer tm.Stop()
+		}
+	case spec.Cancel.Kind == "deadline":
 		sc.ctx, sc.cancel = context.WithTimeout(base, time.Duration(spec.Cancel.DeadlineMs)*time.Millisecond)
-	} else {
+	default:
 		sc.ctx, sc.cancel = context.WithCancel(base)
 	}
 	defer sc.cancel()
+	for i := 0; i < spec.Siblings; i++ {
+		_, cf := context.WithCancel(sc.ctx)
+		defer cf()
+	}
 	// pre-create all tasks
 	var pinTasks []*task
 	for range spec.Pins {
@@ -68,6 +83,41 @@ func run(spec Scenario) outcome {
 		t := sc.newTask(TaskSpec{Kind: "instant"})
 		t.post = true
 		postTasks = append(postTasks, t)
+	}
+	var syncTasks, obsTasks []*task
+	for i := 0; i < spec.SyncPost; i++ {
+		t := sc.newTask(TaskSpec{Kind: "instant"})
+		t.post = true
+		syncTasks = append(syncTasks, t)
+	}
+	for i := 0; i < spec.Observers; i++ {
+		t := sc.newTask(TaskSpec{Kind: "instant"})
+		t.post, t.afterDone = true, true
+		obsTasks = append(obsTasks, t)
+	}
+	// observers: parked in <-Done() before the final / rush cancel is issued (started late so that the
+	// at-rest judgements of the earlier phases do not see them)
+	armObservers := func() {
+		var armed atomic.Int32
+		for i, t := range obsTasks {
+			t, lane := t, i%spec.LaneSize
+			sc.spawn(func() {
+				armed.Add(1)
+				<-sc.ctx.Done()
+				sc.push(t, lane)
+			})
+		}
+		for n := 0; n < 1000 && int(armed.Load()) < len(obsTasks); n++ {
+			runtime.Gosched()
+		}
+		for n := 0; n < 3; n++ {
+			runtime.Gosched()
+		}
+	}
+	syncPost := func() {
+		for i, t := range syncTasks {
+			sc.push(t, i%spec.LaneSize)
+		}
 	}
 
 	sc.tl = tasklane.New(sc.ctx, spec.LaneSize, spec.QueueSize)
@@ -239,13 +289,16 @@ func run(spec Scenario) outcome {
 				}
 			})
 		}
+		armObservers()
 		sc.doCancel("rush")
+		syncPost()
 		close(sc.gate)
 	} else if o := load(); o != nil {
 		return *o
 	}
 
 	// ---- phase 4: cancel, pushes after cancel, Wait --------------------------------------------------------
+	armObservers()
 	sc.doCancel("final")
 	if sc.spec.Cancel.Kind == "deadline" {
 		for sc.ctx.Err() == nil {
@@ -255,6 +308,7 @@ func run(spec Scenario) outcome {
 			sc.cancelRet.Store(sc.stamp())
 		}
 	}
+	syncPost()
 	for i, t := range postTasks {
 		t, lane := t, i%spec.LaneSize
 		sc.spawn(func() { sc.push(t, lane) })
@@ -316,6 +370,14 @@ func run(spec Scenario) outcome {
 			okRc := rc == rcCanceled || (spec.Cancel.Kind == "deadline" && rc == rcDeadline)
 			if !okRc {
 				sc.violate("C07", "push-after-cancel:"+rcName(rc), "a PushTask call that begins after the cancel returns the context's error", fmt.Sprintf("task %d: PushTask returned %s", t.id, rcName(rc)))
+			}
+			if t.enters.Load() > 0 {
+				sc.violate("C07", "push-after-cancel-started", "a task pushed after the cancel is never started", fmt.Sprintf("task %d started", t.id))
+			}
+		}
+		if t.afterDone {
+			if okRc := rc == rcCanceled || (spec.Cancel.Kind == "deadline" && rc == rcDeadline); !okRc {
+				sc.violate("C07", "push-after-done:"+rcName(rc), "a PushTask call that begins after the context's Done() is closed returns the context's error", fmt.Sprintf("task %d, pushed by a goroutine woken by <-ctx.Done(): PushTask returned %s", t.id, rcName(rc)))
 			}
 			if t.enters.Load() > 0 {
 				sc.violate("C07", "push-after-cancel-started", "a task pushed after the cancel is never started", fmt.Sprintf("task %d started", t.id))
